@@ -3,6 +3,7 @@ package input
 import (
 	"context"
 	"fmt"
+	"sort"
 	"strings"
 	"sync"
 	"time"
@@ -100,6 +101,21 @@ func Normalize(deviceInfos []DeviceInfo) []Device {
 	var devices = make([]Device, 0)
 
 	for devPhys, dis := range collection {
+		// the order in which the handlers were discovered must not decide which of them lends the device its identity
+		sort.SliceStable(dis, func(i, j int) bool {
+			a, b := dis[i], dis[j]
+			if len(a.eventName) != len(b.eventName) {
+				return len(a.eventName) < len(b.eventName) // event9 before event10
+			}
+			if a.eventName != b.eventName {
+				return a.eventName < b.eventName
+			}
+			if a.ID != b.ID {
+				return a.ID.String() < b.ID.String()
+			}
+			return a.Name < b.Name
+		})
+
 		var dev = Device{
 			ID:       dis[0].ID,
 			Handlers: make([]Handler, 0),
